@@ -5,6 +5,7 @@
 -/
 import ForsysModel.Model.Tessellation
 import ForsysModel.Props.C20
+import ForsysModel.Props.C09
 import Mathlib.Tactic.Ring
 import Mathlib.Tactic.Linarith
 import Mathlib.Tactic.FieldSimp
@@ -283,20 +284,72 @@ theorem getEnum_of_mem (e : Id × Id) (es : List (Id × (Id × Id))) (_h : DInv 
       · exact absurd rfl (keyOf?_none (e.2, e.1) es hk2 _ hm)
 
 /-! ### the invariants along `create_lattice_elements` -/
-def WInv (w : Walk) : Prop := DInv w.vs ∧ VInj w.vs ∧ DInv w.es ∧ EInj w.es
+
+/-- no stored mesh edge joins a vertex to itself -/
+def NoLoop (es : List (Id × (Id × Id))) : Prop := ∀ p ∈ es, p.2.1 ≠ p.2.2
+/-- both ends of every stored mesh edge are stored vertex ids -/
+def EndsIn (vs : List (Id × Pt)) (es : List (Id × (Id × Id))) : Prop :=
+  ∀ p ∈ es, p.2.1 ∈ vs.map (·.1) ∧ p.2.2 ∈ vs.map (·.1)
+
+theorem getEnum_mem_cases (e : Id × Id) (es : List (Id × (Id × Id))) :
+    ∀ p ∈ (getEnum e es).2, p ∈ es ∨ p.2 = e := by
+  unfold getEnum
+  split
+  · exact fun p hp => Or.inl hp
+  · split
+    · exact fun p hp => Or.inl hp
+    · intro p hp
+      rcases List.mem_append.mp hp with hp | hp
+      · exact Or.inl hp
+      · simp at hp; subst hp; exact Or.inr rfl
+
+def WInv (w : Walk) : Prop :=
+  DInv w.vs ∧ VInj w.vs ∧ DInv w.es ∧ EInj w.es ∧ NoLoop w.es ∧ EndsIn w.vs w.es
+
+theorem EndsIn_mono (vs vs' : List (Id × Pt)) (es : List (Id × (Id × Id))) (h : EndsIn vs es)
+    (hp : ∃ t, vs' = vs ++ t) : EndsIn vs' es := by
+  obtain ⟨t, rfl⟩ := hp
+  intro p hp
+  have := h p hp
+  simp only [List.map_append, List.mem_append]
+  exact ⟨Or.inl this.1, Or.inl this.2⟩
 
 theorem stepEdge_inv (w : Walk) (v01 : Pt × Pt) (h : WInv w) : WInv (stepEdge w v01) := by
-  obtain ⟨h1, h2, h3, h4⟩ := h
+  obtain ⟨h1, h2, h3, h4, h5, h6⟩ := h
   have a := getVertexNumber_inv v01.1 w.vs h1 h2
   have b := getVertexNumber_inv v01.2 _ a.1 a.2
-  have c := getEnum_inv ((getVertexNumber v01.1 w.vs).1, (getVertexNumber v01.2 (getVertexNumber v01.1 w.vs).2).1) w.es h3 h4
-  exact ⟨b.1, b.2, c.1, c.2⟩
+  obtain ⟨t1, ht1⟩ := getVertexNumber_prefix v01.1 w.vs
+  obtain ⟨t2, ht2⟩ := getVertexNumber_prefix v01.2 (getVertexNumber v01.1 w.vs).2
+  have hpre : ∃ t, (getVertexNumber v01.2 (getVertexNumber v01.1 w.vs).2).2 = w.vs ++ t :=
+    ⟨t1 ++ t2, by rw [ht2, ht1, List.append_assoc]⟩
+  have h6' := EndsIn_mono _ _ _ h6 hpre
+  unfold stepEdge
+  simp only
+  split
+  · exact ⟨b.1, b.2, h3, h4, h5, h6'⟩
+  · next hne =>
+    have c := getEnum_inv ((getVertexNumber v01.1 w.vs).1, (getVertexNumber v01.2 (getVertexNumber v01.1 w.vs).2).1) w.es h3 h4
+    refine ⟨b.1, b.2, c.1, c.2, ?_, ?_⟩
+    · intro p hp
+      rcases getEnum_mem_cases _ _ p hp with hp | hp
+      · exact h5 p hp
+      · rw [hp]; exact hne
+    · intro p hp
+      rcases getEnum_mem_cases _ _ p hp with hp | hp
+      · exact h6' p hp
+      · rw [hp]
+        have m1 := getVertexNumber_mem v01.1 w.vs
+        have m2 := getVertexNumber_mem v01.2 (getVertexNumber v01.1 w.vs).2
+        refine ⟨?_, List.mem_map.mpr ⟨_, m2, rfl⟩⟩
+        rw [ht2]
+        simp only [List.map_append, List.mem_append]
+        exact Or.inl (List.mem_map.mpr ⟨_, m1, rfl⟩)
 
 theorem stepRidge_inv (verts : List Pt) (w : Walk) (ij : Int × Int) (h : WInv w) : WInv (stepRidge verts w ij) :=
   foldl_preserves WInv stepEdge stepEdge_inv _ w h
 
 def SInv (st : EState) : Prop :=
-  DInv st.el.vertices ∧ VInj st.el.vertices ∧ DInv st.el.edges ∧ EInj st.el.edges
+  WInv { vs := st.el.vertices, es := st.el.edges, cellE := [], cellV := [] }
 
 theorem processRegion_inv (verts : List Pt) (st : EState) (c : List Int) (h : SInv st) :
     SInv (processRegion verts st c) := by
@@ -312,8 +365,10 @@ theorem stepRegion_inv (verts : List Pt) (st : EState) (c : List Int) (h : SInv 
   · exact h
 
 theorem initState_inv : SInv initState := by
-  refine ⟨⟨by simp [initState], by simp [initState]⟩, by simp [VInj, initState], ⟨by simp [initState], by simp [initState]⟩, ?_⟩
-  intro p hp; simp [initState] at hp
+  refine ⟨⟨by simp [initState], by simp [initState]⟩, by simp [VInj, initState], ⟨by simp [initState], by simp [initState]⟩, ?_, ?_, ?_⟩
+  · intro p hp; simp [initState] at hp
+  · intro p hp; simp [initState] at hp
+  · intro p hp; simp [initState] at hp
 
 theorem elementsState_inv (verts : List Pt) (regions : List (List Int)) (md2 : Option Rat) :
     SInv (elementsState verts regions md2) :=
@@ -480,6 +535,660 @@ theorem orientation_core' (ps : List Pt) (cnum : Int) (hc : 0 < cnum) (h : areaS
   · have h1' : areaSign ps = -1 := h1
     rw [h1', if_neg (by omega), h1']
   · exact absurd h1 h
+
+/-! ### the closed walk round a region, the stored cells, orientation and consistency for all inputs -/
+
+/-- `b` extends `a` (dictionaries only grow) -/
+def Ext {α : Type} (a b : List α) : Prop := ∃ t, b = a ++ t
+theorem Ext.refl {α : Type} (a : List α) : Ext a a := ⟨[], by simp⟩
+theorem Ext.trans {α : Type} {a b c : List α} (h1 : Ext a b) (h2 : Ext b c) : Ext a c := by
+  obtain ⟨t1, rfl⟩ := h1; obtain ⟨t2, rfl⟩ := h2; exact ⟨t1 ++ t2, by simp⟩
+theorem Ext.mem {α : Type} {a b : List α} (h : Ext a b) {x : α} (hx : x ∈ a) : x ∈ b := by
+  obtain ⟨t, rfl⟩ := h; exact List.mem_append_left _ hx
+
+/-- the signed id `e` names the stored mesh edge joining `ab.1 → ab.2`: positive — stored as `[a, b]`,
+    negative — stored reversed under `-e` -/
+def SignedEdge (es : List (Id × (Id × Id))) (e : Id) (ab : Id × Id) : Prop :=
+  (0 < e ∧ (e, ab) ∈ es) ∨ (e < 0 ∧ (-e, (ab.2, ab.1)) ∈ es)
+
+theorem SignedEdge.mono {es es' : List (Id × (Id × Id))} (h : Ext es es') {e : Id} {ab : Id × Id}
+    (hs : SignedEdge es e ab) : SignedEdge es' e ab := by
+  rcases hs with ⟨h1, h2⟩ | ⟨h1, h2⟩
+  · exact Or.inl ⟨h1, h.mem h2⟩
+  · exact Or.inr ⟨h1, h.mem h2⟩
+
+def walkPts (w : Walk) (Q : List Pt) : Walk := (openPairs Q).foldl stepEdge w
+
+theorem walkPts_cons2 (w : Walk) (p q : Pt) (rest : List Pt) :
+    walkPts w (p :: q :: rest) = walkPts (stepEdge w (p, q)) (q :: rest) := rfl
+
+theorem stepEdge_ext (w : Walk) (v01 : Pt × Pt) : Ext w.vs (stepEdge w v01).vs ∧ Ext w.es (stepEdge w v01).es := by
+  obtain ⟨t1, ht1⟩ := getVertexNumber_prefix v01.1 w.vs
+  obtain ⟨t2, ht2⟩ := getVertexNumber_prefix v01.2 (getVertexNumber v01.1 w.vs).2
+  have hv : Ext w.vs (getVertexNumber v01.2 (getVertexNumber v01.1 w.vs).2).2 := ⟨t1 ++ t2, by rw [ht2, ht1, List.append_assoc]⟩
+  unfold stepEdge
+  simp only
+  split
+  · exact ⟨hv, Ext.refl _⟩
+  · exact ⟨hv, getEnum_prefix _ _⟩
+
+theorem walkPts_ext (Q : List Pt) (w : Walk) : Ext w.vs (walkPts w Q).vs ∧ Ext w.es (walkPts w Q).es := by
+  unfold walkPts
+  generalize openPairs Q = L
+  induction L generalizing w with
+  | nil => exact ⟨Ext.refl _, Ext.refl _⟩
+  | cons a L ih =>
+    rw [List.foldl_cons]
+    have h1 := stepEdge_ext w a
+    have h2 := ih (stepEdge w a)
+    exact ⟨h1.1.trans h2.1, h1.2.trans h2.2⟩
+
+theorem walkPts_inv (Q : List Pt) (w : Walk) (h : WInv w) : WInv (walkPts w Q) :=
+  foldl_preserves WInv stepEdge stepEdge_inv _ w h
+
+theorem key_inj {vs : List (Id × Pt)} (h : DInv vs) {k : Id} {p q : Pt} (hp : (k, p) ∈ vs) (hq : (k, q) ∈ vs) : p = q := by
+  have := List.inj_on_of_nodup_map h.1 hp hq rfl
+  exact (Prod.mk.inj this).2
+
+theorem val_inj {vs : List (Id × Pt)} (h : VInj vs) {k k' : Id} {p : Pt} (hp : (k, p) ∈ vs) (hq : (k', p) ∈ vs) : k = k' := by
+  have := List.inj_on_of_nodup_map h hp hq rfl
+  exact (Prod.mk.inj this).1
+
+/-- one step from an interned start point to a different point -/
+theorem stepEdge_distinct (w : Walk) (k0 : Id) (p q : Pt) (h : WInv w) (hk : (k0, p) ∈ w.vs) (hpq : p ≠ q) :
+    let r2 := getVertexNumber q w.vs
+    let re := getEnum (k0, r2.1) w.es
+    stepEdge w (p, q) = { vs := r2.2, es := re.2, cellE := w.cellE ++ [re.1], cellV := w.cellV ++ [k0, r2.1] } ∧
+    (r2.1, q) ∈ r2.2 ∧ SignedEdge re.2 re.1 (k0, r2.1) := by
+  intro r2 re
+  have e1 : getVertexNumber p w.vs = (k0, w.vs) := getVertexNumber_of_mem p w.vs h.2.1 k0 hk
+  have m2 : (r2.1, q) ∈ r2.2 := getVertexNumber_mem q w.vs
+  have i2 := getVertexNumber_inv q w.vs h.1 h.2.1
+  have hne : k0 ≠ r2.1 := by
+    intro e
+    have hk' : (k0, p) ∈ r2.2 := by
+      obtain ⟨t, ht⟩ := getVertexNumber_prefix q w.vs
+      show (k0, p) ∈ (getVertexNumber q w.vs).2
+      rw [ht]; exact List.mem_append_left _ hk
+    rw [← e] at m2
+    exact hpq (key_inj i2.1 hk' m2)
+  refine ⟨?_, m2, ?_⟩
+  · unfold stepEdge
+    simp only [e1]
+    rw [if_neg hne]
+  · exact getEnum_mem (k0, r2.1) w.es h.2.2.1
+
+theorem walk_from (rest : List Pt) : ∀ (w : Walk) (k0 : Id) (p : Pt), WInv w → (k0, p) ∈ w.vs →
+    (∀ ab ∈ openPairs (p :: rest), ab.1 ≠ ab.2) →
+    ∃ Wr E', List.Forall₂ (fun k q => (k, q) ∈ (walkPts w (p :: rest)).vs) Wr rest ∧
+      (walkPts w (p :: rest)).cellV = w.cellV ++ dupOpen (k0 :: Wr) ∧
+      (walkPts w (p :: rest)).cellE = w.cellE ++ E' ∧
+      List.Forall₂ (SignedEdge (walkPts w (p :: rest)).es) E' (openPairs (k0 :: Wr)) := by
+  induction rest with
+  | nil =>
+    intro w k0 p _ _ _
+    exact ⟨[], [], List.Forall₂.nil, by simp [walkPts, openPairs, dupOpen], by simp [walkPts, openPairs], by simp [openPairs]⟩
+  | cons q rest ih =>
+    intro w k0 p hw hk hch
+    have hpq : p ≠ q := hch (p, q) (by simp [openPairs])
+    obtain ⟨hstep, hm2, hse⟩ := stepEdge_distinct w k0 p q hw hk hpq
+    rw [walkPts_cons2]
+    have hw1inv : WInv (stepEdge w (p, q)) := stepEdge_inv w (p, q) hw
+    obtain ⟨w1, hw1⟩ : ∃ w1, w1 = stepEdge w (p, q) := ⟨_, rfl⟩
+    rw [← hw1] at hw1inv ⊢
+    rw [hstep] at hw1
+    have hk1 : ((getVertexNumber q w.vs).1, q) ∈ w1.vs := by rw [hw1]; exact hm2
+    have hch1 : ∀ ab ∈ openPairs (q :: rest), ab.1 ≠ ab.2 := fun ab hab => hch ab (by
+      show ab ∈ (p, q) :: openPairs (q :: rest); exact List.mem_cons_of_mem _ hab)
+    obtain ⟨Wr, E', f1, f2, f3, f4⟩ := ih w1 _ q hw1inv hk1 hch1
+    have hext := walkPts_ext (q :: rest) w1
+    refine ⟨(getVertexNumber q w.vs).1 :: Wr, (getEnum (k0, (getVertexNumber q w.vs).1) w.es).1 :: E', ?_, ?_, ?_, ?_⟩
+    · exact List.Forall₂.cons (hext.1.mem hk1) f1
+    · rw [f2, hw1]
+      show _ = w.cellV ++ (k0 :: (getVertexNumber q w.vs).1 :: dupOpen ((getVertexNumber q w.vs).1 :: Wr))
+      simp
+    · rw [f3, hw1]; simp
+    · show List.Forall₂ _ _ ((k0, (getVertexNumber q w.vs).1) :: openPairs ((getVertexNumber q w.vs).1 :: Wr))
+      refine List.Forall₂.cons ?_ f4
+      have : Ext (getEnum (k0, (getVertexNumber q w.vs).1) w.es).2 w1.es := by rw [hw1]; exact Ext.refl _
+      exact (hse.mono this).mono hext.2
+
+
+
+theorem openPairs_ne_of_nodup {α : Type} (L : List α) (h : L.Nodup) : ∀ ab ∈ openPairs L, ab.1 ≠ ab.2 := by
+  induction L with
+  | nil => simp [openPairs]
+  | cons a L ih =>
+    cases L with
+    | nil => simp [openPairs]
+    | cons b L =>
+      intro ab hab
+      have e : openPairs (a :: b :: L) = (a, b) :: openPairs (b :: L) := rfl
+      rw [e] at hab
+      rcases List.mem_cons.mp hab with rfl | hab
+      · have := (List.nodup_cons.mp h).1
+        intro e'; simp only at e'; subst e'; exact this (List.mem_cons_self ..)
+      · exact ih (List.nodup_cons.mp h).2 ab hab
+
+theorem openPairs_closed_ne (p : Pt) (t : List Pt) (ht : t ≠ []) (h : (p :: t).Nodup) :
+    ∀ ab ∈ openPairs (p :: (t ++ [p])), ab.1 ≠ ab.2 := by
+  cases t with
+  | nil => exact absurd rfl ht
+  | cons q t =>
+    have hn := List.nodup_cons.mp h
+    intro ab hab
+    have e : openPairs (p :: (q :: t ++ [p])) = (p, q) :: openPairs (q :: t ++ [p]) := rfl
+    rw [e] at hab
+    rcases List.mem_cons.mp hab with rfl | hab
+    · intro e'; simp only at e'; subst e'; exact hn.1 (List.mem_cons_self ..)
+    · have : (q :: t ++ [p]).Nodup := by
+        rw [List.nodup_append]
+        refine ⟨hn.2, by simp, ?_⟩
+        intro a ha b hb
+        simp at hb; subst hb
+        intro e'; subst e'; exact hn.1 ha
+      exact openPairs_ne_of_nodup _ this ab hab
+
+theorem stepEdge_preintern (w : Walk) (p q : Pt) (h : WInv w) :
+    stepEdge w (p, q) = stepEdge { w with vs := (getVertexNumber p w.vs).2 } (p, q) := by
+  have i1 := getVertexNumber_inv p w.vs h.1 h.2.1
+  have e := getVertexNumber_of_mem p (getVertexNumber p w.vs).2 i1.2 _ (getVertexNumber_mem p w.vs)
+  unfold stepEdge
+  simp only [e]
+
+/-- the closed walk round a region whose rounded corners `p :: t` are pairwise different (at least two) -/
+theorem region_walk (w : Walk) (p : Pt) (t : List Pt) (hw : WInv w) (ht : t ≠ []) (hn : (p :: t).Nodup) :
+    ∃ W E', List.Forall₂ (fun k q => (k, q) ∈ (walkPts w (p :: (t ++ [p]))).vs) W (p :: t) ∧
+      (walkPts w (p :: (t ++ [p]))).cellV = w.cellV ++ dupOpen (W ++ W.take 1) ∧
+      (walkPts w (p :: (t ++ [p]))).cellE = w.cellE ++ E' ∧
+      List.Forall₂ (SignedEdge (walkPts w (p :: (t ++ [p]))).es) E' (openPairs (W ++ W.take 1)) := by
+  -- intern the first corner beforehand
+  have hpre : walkPts w (p :: (t ++ [p])) = walkPts { w with vs := (getVertexNumber p w.vs).2 } (p :: (t ++ [p])) := by
+    cases t with
+    | nil => exact absurd rfl ht
+    | cons q t =>
+      show walkPts w (p :: q :: (t ++ [p])) = walkPts _ (p :: q :: (t ++ [p]))
+      rw [walkPts_cons2, walkPts_cons2, stepEdge_preintern w p q hw]
+  obtain ⟨w0, hw0⟩ : ∃ w0 : Walk, w0 = { w with vs := (getVertexNumber p w.vs).2 } := ⟨_, rfl⟩
+  have i1 := getVertexNumber_inv p w.vs hw.1 hw.2.1
+  have hw0inv : WInv w0 := by
+    rw [hw0]
+    exact ⟨i1.1, i1.2, hw.2.2.1, hw.2.2.2.1, hw.2.2.2.2.1, EndsIn_mono _ _ _ hw.2.2.2.2.2 (getVertexNumber_prefix p w.vs)⟩
+  have hk0 : ((getVertexNumber p w.vs).1, p) ∈ w0.vs := by rw [hw0]; exact getVertexNumber_mem p w.vs
+  rw [hpre, ← hw0]
+  obtain ⟨Wr, E', f1, f2, f3, f4⟩ := walk_from (t ++ [p]) w0 _ p hw0inv hk0 (openPairs_closed_ne p t ht hn)
+  have hext := walkPts_ext (p :: (t ++ [p])) w0
+  have hinv := walkPts_inv (p :: (t ++ [p])) w0 hw0inv
+  have hk0' := hext.1.mem hk0
+  have g1 := List.forall₂_take_append Wr t [p] f1
+  have g2 := List.forall₂_drop_append Wr t [p] f1
+  have hWr : Wr = Wr.take t.length ++ [(getVertexNumber p w.vs).1] := by
+    conv_lhs => rw [← List.take_append_drop t.length Wr]
+    congr 1
+    match hd : Wr.drop t.length, g2 with
+    | [k'], List.Forall₂.cons hk' List.Forall₂.nil =>
+      rw [val_inj hinv.2.1 hk' hk0']
+  have hcv : w0.cellV = w.cellV := by rw [hw0]
+  have hce : w0.cellE = w.cellE := by rw [hw0]
+  refine ⟨(getVertexNumber p w.vs).1 :: Wr.take t.length, E', List.Forall₂.cons hk0' g1, ?_, ?_, ?_⟩
+  · rw [f2, hcv]; congr 2
+    rw [List.take_succ_cons, List.take_zero, List.cons_append, ← hWr]
+  · rw [f3, hce]
+  · rw [List.take_succ_cons, List.take_zero, List.cons_append, ← hWr]; exact f4
+
+
+
+/-! ### from the region loop to the walk -/
+
+/-- the rounded corner points of a region -/
+def corners (verts : List Pt) (c : List Int) : List Pt := c.map fun i => roundPt (qv verts i)
+
+theorem stepRidge_eq (verts : List Pt) (w : Walk) (ij : Int × Int) :
+    stepRidge verts w ij = stepEdge w (roundPt (qv verts ij.1), roundPt (qv verts ij.2)) := by
+  unfold stepRidge
+  rw [ridgePoints_eq']
+  rfl
+
+theorem foldl_stepRidge_eq (verts : List Pt) (L : List Int) (w : Walk) :
+    (openPairs L).foldl (stepRidge verts) w = walkPts w (corners verts L) := by
+  induction L generalizing w with
+  | nil => rfl
+  | cons a L ih =>
+    cases L with
+    | nil => rfl
+    | cons b L =>
+      have e : openPairs (a :: b :: L) = (a, b) :: openPairs (b :: L) := rfl
+      rw [e, List.foldl_cons, ih, stepRidge_eq]
+      rfl
+
+theorem corners_close (verts : List Pt) (c : List Int) :
+    corners verts (closeRegion c) = corners verts c ++ (corners verts c).take 1 := by
+  unfold corners closeRegion
+  rw [List.map_append, List.map_take]
+
+theorem alGet?_of_mem {β : Type} (d : List (Id × β)) (h : (d.map (·.1)).Nodup) (k : Id) (v : β) (hm : (k, v) ∈ d) :
+    alGet? k d = some v := by
+  induction d with
+  | nil => simp at hm
+  | cons a d ih =>
+    obtain ⟨k', w⟩ := a
+    simp only [List.map_cons, List.nodup_cons] at h
+    unfold alGet?
+    rcases List.mem_cons.mp hm with e | hm
+    · injection e with e1 e2; subst e1; subst e2; simp
+    · have : k ≠ k' := fun e => h.1 (e ▸ List.mem_map.mpr ⟨_, hm, rfl⟩)
+      simp [this, ih h.2 hm]
+
+/-- `vertices[i]` as used by `get_cell_area` -/
+def ptOf (vs : List (Id × Pt)) (i : Id) : Pt := (alGet? i vs).getD default
+
+theorem map_ptOf {vs : List (Id × Pt)} (h : DInv vs) {W : List Id} {P : List Pt}
+    (f : List.Forall₂ (fun k q => (k, q) ∈ vs) W P) : W.map (ptOf vs) = P := by
+  induction f with
+  | nil => rfl
+  | cons hkq _ ih => simp [ptOf, alGet?_of_mem _ h.1 _ _ hkq, ih]
+
+theorem dupOpen_map {α β : Type} (f : α → β) (l : List α) : (dupOpen l).map f = dupOpen (l.map f) := by
+  induction l with
+  | nil => rfl
+  | cons a l ih =>
+    cases l with
+    | nil => rfl
+    | cons b l =>
+      show f a :: f b :: (dupOpen (b :: l)).map f = f a :: f b :: dupOpen ((b :: l).map f)
+      rw [ih]
+
+theorem mem_dictSet {β : Type} (k : Id) (v : β) (d : List (Id × β)) : ∀ x ∈ dictSet k v d, x = (k, v) ∨ x ∈ d := by
+  induction d with
+  | nil => intro x hx; simp [dictSet] at hx; exact Or.inl hx
+  | cons a d ih =>
+    obtain ⟨k', w⟩ := a
+    intro x hx
+    unfold dictSet at hx
+    split at hx
+    · rcases List.mem_cons.mp hx with hx | hx
+      · exact Or.inl hx
+      · exact Or.inr (List.mem_cons_of_mem _ hx)
+    · rcases List.mem_cons.mp hx with hx | hx
+      · exact Or.inr (hx ▸ List.mem_cons_self ..)
+      · rcases ih x hx with h | h
+        · exact Or.inl h
+        · exact Or.inr (List.mem_cons_of_mem _ h)
+
+/-- what is recorded about a stored cell `(key, signed edge ids)`: it is the closed walk round the pairwise
+    different rounded corners `P` of an admissible region, `W` are their vertex ids, every signed id names the
+    stored mesh edge of its step, and the key is `-cnum · sign(area of the doubled walk)` -/
+def CellRec (ok : List Pt → Prop) (vs : List (Id × Pt)) (es : List (Id × (Id × Id))) (entry : Id × List Id) : Prop :=
+  ∃ (P : List Pt) (W : List Id) (n : Int), ok P ∧ 0 < n ∧ P.Nodup ∧ 2 ≤ P.length ∧
+    List.Forall₂ (fun k q => (k, q) ∈ vs) W P ∧
+    List.Forall₂ (SignedEdge es) entry.2 (openPairs (W ++ W.take 1)) ∧
+    entry.1 = -1 * n * areaSign (dupOpen (P ++ P.take 1))
+
+theorem CellRec.mono {ok : List Pt → Prop} {vs vs' : List (Id × Pt)} {es es' : List (Id × (Id × Id))}
+    (hv : Ext vs vs') (he : Ext es es') {e : Id × List Id} (h : CellRec ok vs es e) : CellRec ok vs' es' e := by
+  obtain ⟨P, W, n, h0, h1, h2, h3, h4, h5, h6⟩ := h
+  exact ⟨P, W, n, h0, h1, h2, h3, h4.imp (fun _ _ hm => hv.mem hm), h5.imp (fun _ _ hs => hs.mono he), h6⟩
+
+def GInv (ok : List Pt → Prop) (st : EState) : Prop :=
+  SInv st ∧ 0 < st.cnum ∧ ∀ e ∈ st.el.cells, CellRec ok st.el.vertices st.el.edges e
+
+theorem processRegion_ginv (ok : List Pt → Prop) (verts : List Pt) (st : EState) (c : List Int) (h : GInv ok st)
+    (hok : ok (corners verts c)) (hn : (corners verts c).Nodup) (h2 : 2 ≤ (corners verts c).length) :
+    GInv ok (processRegion verts st c) := by
+  obtain ⟨hs, hc, hcells⟩ := h
+  refine ⟨processRegion_inv verts st c hs, by show 0 < st.cnum + 1; omega, ?_⟩
+  obtain ⟨w0, hw0⟩ : ∃ w0 : Walk, w0 = { vs := st.el.vertices, es := st.el.edges, cellE := [], cellV := [] } := ⟨_, rfl⟩
+  have hw0inv : WInv w0 := by rw [hw0]; exact hs
+  have hwalk : (openPairs (closeRegion c)).foldl (stepRidge verts) w0
+      = walkPts w0 (corners verts c ++ (corners verts c).take 1) := by
+    rw [foldl_stepRidge_eq, corners_close]
+  obtain ⟨p, t, hpt⟩ : ∃ p t, corners verts c = p :: t := by
+    cases hc' : corners verts c with
+    | nil => rw [hc'] at h2; simp at h2
+    | cons p t => exact ⟨p, t, rfl⟩
+  have ht : t ≠ [] := by
+    intro e; rw [hpt, e] at h2; simp at h2
+  have hclosed : corners verts c ++ (corners verts c).take 1 = p :: (t ++ [p]) := by rw [hpt]; rfl
+  rw [hclosed] at hwalk
+  obtain ⟨W, E', f1, f2, f3, f4⟩ := region_walk w0 p t hw0inv ht (hpt ▸ hn)
+  have hext := walkPts_ext (p :: (t ++ [p])) w0
+  have hinv := walkPts_inv (p :: (t ++ [p])) w0 hw0inv
+  obtain ⟨w', hw'⟩ : ∃ w', w' = walkPts w0 (p :: (t ++ [p])) := ⟨_, rfl⟩
+  rw [← hw'] at f1 f2 f3 f4 hext hinv
+  have hcv : w0.cellV = [] := by rw [hw0]
+  have hce : w0.cellE = [] := by rw [hw0]
+  rw [hcv, List.nil_append] at f2
+  rw [hce, List.nil_append] at f3
+  have hv0 : w0.vs = st.el.vertices := by rw [hw0]
+  have he0 : w0.es = st.el.edges := by rw [hw0]
+  -- the new state
+  have hst : processRegion verts st c =
+      { el := { vertices := w'.vs, edges := w'.es,
+                cells := dictSet (-1 * st.cnum * cellAreaSign w'.cellV w'.vs) w'.cellE st.el.cells },
+        cnum := st.cnum + 1 } := by
+    unfold processRegion
+    simp only
+    rw [← hw0, hwalk, ← hw']
+  rw [hst]
+  intro e he
+  rcases mem_dictSet _ _ _ e he with rfl | he
+  · refine ⟨p :: t, W, st.cnum, hpt ▸ hok, hc, hpt ▸ hn, hpt ▸ h2, f1, by rw [f3]; exact f4, ?_⟩
+    show -1 * st.cnum * cellAreaSign w'.cellV w'.vs = _
+    congr 1
+    unfold cellAreaSign
+    have : (w'.cellV.map fun i => (alGet? i w'.vs).getD default) = dupOpen ((p :: t) ++ (p :: t).take 1) := by
+      rw [f2]
+      show (dupOpen (W ++ W.take 1)).map (ptOf w'.vs) = _
+      rw [dupOpen_map, List.map_append, List.map_take, map_ptOf hinv.1 f1]
+    rw [this]
+  · exact (hcells e he).mono (hv0 ▸ hext.1) (he0 ▸ hext.2)
+
+theorem foldl_stepRegion_ginv (ok : List Pt → Prop) (verts : List Pt) (L : List (List Int)) (st : EState)
+    (h : GInv ok st)
+    (hL : ∀ c ∈ L, bounded c = true → ok (corners verts c) ∧ (corners verts c).Nodup ∧ 2 ≤ (corners verts c).length) :
+    GInv ok (L.foldl (stepRegion verts) st) := by
+  induction L generalizing st with
+  | nil => exact h
+  | cons c L ih =>
+    rw [List.foldl_cons]
+    apply ih
+    · have e : stepRegion verts st c = if bounded c then processRegion verts st c else st := rfl
+      rw [e]
+      split
+      · next hb =>
+        obtain ⟨a1, a2, a3⟩ := hL c (List.mem_cons_self ..) hb
+        exact processRegion_ginv ok verts st c h a1 a2 a3
+      · exact h
+    · exact fun c' hc' => hL c' (List.mem_cons_of_mem _ hc')
+
+theorem initState_ginv (ok : List Pt → Prop) : GInv ok initState :=
+  ⟨initState_inv, by simp [initState], by intro e he; simp [initState] at he⟩
+
+
+
+/-! ### consequences for the stored cells -/
+
+/-- hypothesis "no two corners of a region coincide after rounding" (and a region has at least two corners) -/
+def GoodRegions (verts : List Pt) (kept : List (List Int)) : Prop :=
+  ∀ c ∈ kept, bounded c = true → (corners verts c).Nodup ∧ 2 ≤ c.length
+
+/-- `P` is the rounded corner list of a bounded region that survived the cut-off -/
+def IsRegion (verts : List Pt) (kept : List (List Int)) (P : List Pt) : Prop :=
+  ∃ c ∈ kept, bounded c = true ∧ P = corners verts c
+
+theorem elements_ginv (verts : List Pt) (regions : List (List Int)) (md2 : Option Rat)
+    (h : GoodRegions verts (removeInfiniteRegions verts md2 regions)) :
+    GInv (IsRegion verts (removeInfiniteRegions verts md2 regions)) (elementsState verts regions md2) := by
+  apply foldl_stepRegion_ginv _ verts _ _ (initState_ginv _)
+  intro c hc hb
+  have := h c hc hb
+  exact ⟨⟨c, hc, hb, rfl⟩, this.1, by simpa [corners] using this.2⟩
+
+theorem natAbs_keys {β : Type} (d : List (Id × β)) (h : DInv d) :
+    d.map (fun p => ((Int.natAbs p.1 : Int), p.2)) = d := by
+  have : ∀ p ∈ d, (fun p : Id × β => ((Int.natAbs p.1 : Int), p.2)) p = p := by
+    intro p hp
+    have h1 : (1 : Int) ≤ p.1 := h.2 p hp
+    have e : ((Int.natAbs p.1 : Int)) = p.1 := by omega
+    simp [e]
+  rw [List.map_congr_left this, List.map_id']
+
+theorem edgeVertex_of_signed (es : List (Id × (Id × Id))) (h : DInv es) (e : Id) (ab : Id × Id)
+    (hs : SignedEdge es e ab) : edgeVertex es e = ab.1 := by
+  unfold edgeVertex
+  rw [natAbs_keys es h]
+  rcases hs with ⟨h1, h2⟩ | ⟨h1, h2⟩
+  · have h1' : (0 : Int) < e := h1
+    have e1 : ((Int.natAbs e : Int)) = e := by omega
+    rw [e1, alGet?_of_mem es h.1 _ _ h2]
+    simp [h1]
+  · have e1 : ((Int.natAbs e : Int)) = -e := Int.ofNat_natAbs_of_nonpos (le_of_lt h1)
+    rw [e1, alGet?_of_mem es h.1 _ _ h2]
+    have : ¬ (0 < e) := not_lt.mpr (le_of_lt h1)
+    simp [this]
+
+theorem forall₂_map_eq {α β γ : Type} {R : α → β → Prop} {f : α → γ} {g : β → γ} (hR : ∀ a b, R a b → f a = g b)
+    {l1 : List α} {l2 : List β} (h : List.Forall₂ R l1 l2) : l1.map f = l2.map g := by
+  induction h with
+  | nil => rfl
+  | cons hab _ ih => simp [hR _ _ hab, ih]
+
+theorem openPairs_fst_append {α : Type} (L : List α) (z : α) : (openPairs (L ++ [z])).map Prod.fst = L := by
+  induction L with
+  | nil => rfl
+  | cons a L ih =>
+    cases L with
+    | nil => rfl
+    | cons b L =>
+      show a :: (openPairs (b :: L ++ [z])).map Prod.fst = _
+      rw [ih]
+
+theorem openPairs_close_fst {α : Type} (W : List α) : (openPairs (W ++ W.take 1)).map Prod.fst = W := by
+  cases W with
+  | nil => rfl
+  | cons a l => exact openPairs_fst_append (a :: l) a
+
+/-- the stored cell is the list of vertex ids of the region's rounded corners, reversed for a negative key -/
+theorem cellCycle_of_rec {ok : List Pt → Prop} {vs : List (Id × Pt)} {es : List (Id × (Id × Id))} (hv : DInv vs)
+    (he : DInv es) {entry : Id × List Id} (h : CellRec ok vs es entry) :
+    ∃ (P : List Pt) (W : List Id) (n : Int), ok P ∧ 0 < n ∧ P.Nodup ∧ List.Forall₂ (fun k q => (k, q) ∈ vs) W P ∧
+      entry.1 = -1 * n * areaSign (dupOpen (P ++ P.take 1)) ∧
+      cellCycle es entry.1 entry.2 = (if entry.1 < 0 then W.reverse else W) ∧
+      (cellCycle es entry.1 entry.2).map (ptOf vs) = (if entry.1 < 0 then P.reverse else P) := by
+  obtain ⟨P, W, n, h0, h1, h2, _, h4, h5, h6⟩ := h
+  have hW : entry.2.map (edgeVertex es) = W := by
+    rw [forall₂_map_eq (fun e ab hs => edgeVertex_of_signed es he e ab hs) h5, openPairs_close_fst]
+  have hc : cellCycle es entry.1 entry.2 = (if entry.1 < 0 then W.reverse else W) := by
+    unfold cellCycle; simp only [hW]
+  refine ⟨P, W, n, h0, h1, h2, h4, h6, hc, ?_⟩
+  rw [hc]
+  split
+  · rw [List.map_reverse, map_ptOf hv h4]
+  · exact map_ptOf hv h4
+
+theorem uniform_orientation' (verts : List Pt) (regions : List (List Int)) (md2 : Option Rat)
+    (h : GoodRegions verts (removeInfiniteRegions verts md2 regions)) :
+    let el := createLatticeElements verts regions md2
+    ∀ e ∈ el.cells, e.1 ≠ 0 → areaSign ((cellCycle el.edges e.1 e.2).map (ptOf el.vertices)) = -1 := by
+  intro el e he hne
+  obtain ⟨hs, _, hcells⟩ := elements_ginv verts regions md2 h
+  obtain ⟨P, W, n, _, hn, _, _, hkey, _, hpts⟩ := cellCycle_of_rec hs.1 hs.2.2.1 (hcells e he)
+  have hP : areaSign P ≠ 0 := by
+    intro h0
+    apply hne
+    have : areaSign (dupOpen (P ++ P.take 1)) = areaSign P := by unfold areaSign; rw [area_dupOpen_close']
+    rw [hkey, this, h0]; simp
+  have := orientation_core' P n hn hP
+  rw [← hkey] at this
+  show areaSign ((cellCycle (createLatticeElements verts regions md2).edges e.1 e.2).map
+    (ptOf (createLatticeElements verts regions md2).vertices)) = -1
+  have hpts' : (cellCycle (createLatticeElements verts regions md2).edges e.1 e.2).map
+      (ptOf (createLatticeElements verts regions md2).vertices) = if e.1 < 0 then P.reverse else P := hpts
+  rw [hpts']
+  exact this
+
+
+
+/-! ### consistency of the lattice through the parser pattern of C09 -/
+
+/-- keys of the cell dictionary have pairwise different absolute values -/
+def KInv (st : EState) : Prop :=
+  1 ≤ st.cnum ∧ (∀ k ∈ st.el.cells.map (·.1), -st.cnum < k ∧ k < st.cnum) ∧
+  ((st.el.cells.map (·.1)).map Int.natAbs).Nodup
+
+theorem processRegion_kinv (verts : List Pt) (st : EState) (c : List Int) (h : KInv st) :
+    KInv (processRegion verts st c) := by
+  obtain ⟨h1, h2, h3⟩ := h
+  unfold processRegion
+  simp only
+  generalize (List.foldl (stepRidge verts) _ (openPairs (closeRegion c))) = w
+  unfold KInv
+  simp only [dictSet_keys]
+  have hs' : cellAreaSign w.cellV w.vs = 1 ∨ cellAreaSign w.cellV w.vs = -1 ∨ cellAreaSign w.cellV w.vs = 0 :=
+    ratSign_cases (area (w.cellV.map fun i => (alGet? i w.vs).getD default))
+  generalize cellAreaSign w.cellV w.vs = s at hs'
+  refine ⟨by omega, ?_, ?_⟩
+  · intro k hk
+    split at hk
+    · have := h2 k hk; omega
+    · rcases List.mem_append.mp hk with hk | hk
+      · have := h2 k hk; omega
+      · simp at hk; rcases hs' with rfl | rfl | rfl <;> omega
+  · split
+    · exact h3
+    · next hnot =>
+      rw [List.map_append, List.nodup_append]
+      refine ⟨h3, by simp, ?_⟩
+      intro a ha b hb
+      simp at hb
+      obtain ⟨k, hk, rfl⟩ := List.mem_map.mp ha
+      have hk2 := h2 k hk
+      rw [hb]
+      intro e
+      rcases hs' with rfl | rfl | rfl
+      · omega
+      · omega
+      · have : k = 0 := by omega
+        exact hnot (by simpa [this] using hk)
+
+theorem elements_kinv (verts : List Pt) (regions : List (List Int)) (md2 : Option Rat) :
+    KInv (elementsState verts regions md2) := by
+  apply foldl_preserves KInv (stepRegion verts) _ _ _ (by refine ⟨by simp [initState], by simp [initState], by simp [initState]⟩)
+  intro st c h
+  unfold stepRegion
+  split
+  · exact processRegion_kinv verts st c h
+  · exact h
+
+theorem forall₂_mem_left {α β : Type} {R : α → β → Prop} {l1 : List α} {l2 : List β} (h : List.Forall₂ R l1 l2) :
+    ∀ a ∈ l1, ∃ b ∈ l2, R a b := by
+  induction h with
+  | nil => simp
+  | cons hab _ ih =>
+    intro a ha
+    rcases List.mem_cons.mp ha with rfl | ha
+    · exact ⟨_, List.mem_cons_self .., hab⟩
+    · obtain ⟨b, hb, hr⟩ := ih a ha; exact ⟨b, List.mem_cons_of_mem _ hb, hr⟩
+
+theorem forall₂_mem_right {α β : Type} {R : α → β → Prop} {l1 : List α} {l2 : List β} (h : List.Forall₂ R l1 l2) :
+    ∀ b ∈ l2, ∃ a ∈ l1, R a b := by
+  induction h with
+  | nil => simp
+  | cons hab _ ih =>
+    intro b hb
+    rcases List.mem_cons.mp hb with rfl | hb
+    · exact ⟨_, List.mem_cons_self .., hab⟩
+    · obtain ⟨a, ha, hr⟩ := ih b hb; exact ⟨a, List.mem_cons_of_mem _ ha, hr⟩
+
+theorem ids_nodup {vs : List (Id × Pt)} (hv : DInv vs) {W : List Id} {P : List Pt}
+    (f : List.Forall₂ (fun k q => (k, q) ∈ vs) W P) (hP : P.Nodup) : W.Nodup := by
+  induction f with
+  | nil => exact List.nodup_nil
+  | cons hkq f' ih =>
+    rw [List.nodup_cons] at hP ⊢
+    refine ⟨?_, ih hP.2⟩
+    intro hk
+    obtain ⟨q, hq, hr⟩ := forall₂_mem_left f' _ hk
+    exact hP.1 (key_inj hv hkq hr ▸ hq)
+
+theorem cyclicPairs_eq_openPairs {α : Type} (W : List α) : cyclicPairs W = openPairs (W ++ W.take 1) := by
+  cases W with
+  | nil => rfl
+  | cons a l =>
+    show List.zip (a :: l) (l ++ [a]) = openPairs (a :: l ++ [a])
+    have : ∀ (l : List α) (a z : α), openPairs (a :: l ++ [z]) = List.zip (a :: l) (l ++ [z]) := by
+      intro l
+      induction l with
+      | nil => intro a z; rfl
+      | cons b l ih =>
+        intro a z
+        show (a, b) :: openPairs (b :: l ++ [z]) = (a, b) :: List.zip (b :: l) (l ++ [z])
+        rw [ih]
+    rw [this]
+
+theorem tess_wf (verts : List Pt) (regions : List (List Int)) (md2 : Option Rat)
+    (h : GoodRegions verts (removeInfiniteRegions verts md2 regions)) :
+    let el := createLatticeElements verts regions md2
+    WFInput (latticeVertices el) (latticeEdges el) (latticeCells el) := by
+  intro el
+  obtain ⟨hs, _, hcells0⟩ := elements_ginv verts regions md2 h
+  have hv : DInv el.vertices := hs.1
+  have he : DInv el.edges := hs.2.2.1
+  have hloop : NoLoop el.edges := hs.2.2.2.2.1
+  have hends : EndsIn el.vertices el.edges := hs.2.2.2.2.2
+  have hcells : ∀ e ∈ el.cells, CellRec (IsRegion verts (removeInfiniteRegions verts md2 regions)) el.vertices el.edges e := hcells0
+  have hk : 1 ≤ (elementsState verts regions md2).cnum ∧ (∀ k ∈ el.cells.map (·.1), -(elementsState verts regions md2).cnum < k ∧ k < (elementsState verts regions md2).cnum) ∧
+      ((el.cells.map (·.1)).map Int.natAbs).Nodup := elements_kinv verts regions md2
+  have hvk : (latticeVertices el).map (·.1) = el.vertices.map (·.1) := by
+    unfold latticeVertices; rw [List.map_map]; rfl
+  have hle : latticeEdges el = el.edges.map fun p => (p.1, p.2.1, p.2.2) := by
+    unfold latticeEdges
+    conv_rhs => rw [← natAbs_keys el.edges he]
+    rw [List.map_map]; rfl
+  refine ⟨?_, ?_, ?_, ?_, ?_, ?_⟩
+  · rw [hvk]; exact hv.1
+  · rw [hle, List.map_map]; exact he.1
+  · have : (latticeCells el).map (·.1) = ((el.cells.map (·.1)).map Int.natAbs).map (fun n : Nat => (n : Int)) := by
+      unfold latticeCells; simp [List.map_map, Function.comp_def]
+    rw [this]
+    exact hk.2.2.map (fun a b hab => by exact_mod_cast hab)
+  · intro e hee
+    rw [hle] at hee
+    obtain ⟨p, hp, rfl⟩ := List.mem_map.mp hee
+    rw [hvk]
+    exact ⟨hloop p hp, hends p hp⟩
+  · intro c hc
+    obtain ⟨entry, hentry, rfl⟩ := List.mem_map.mp hc
+    obtain ⟨P, W, n, _, _, hP, hf, _, hcyc, _⟩ := cellCycle_of_rec hv he (hcells entry hentry)
+    have hW := ids_nodup hv hf hP
+    have hcyc' : cellCycle el.edges entry.1 entry.2 = if entry.1 < 0 then W.reverse else W := hcyc
+    simp only
+    rw [hcyc', hvk]
+    constructor
+    · split
+      · exact List.nodup_reverse.mpr hW
+      · exact hW
+    · intro v hvm
+      have hvW : v ∈ W := by
+        split at hvm
+        · exact List.mem_reverse.mp hvm
+        · exact hvm
+      obtain ⟨q, _, hr⟩ := forall₂_mem_left hf v hvW
+      exact List.mem_map.mpr ⟨_, hr, rfl⟩
+  · intro c hc ab hab
+    obtain ⟨entry, hentry, rfl⟩ := List.mem_map.mp hc
+    obtain ⟨P, W, n, h0, h1, h2, h3, h4, h5, h6⟩ := hcells entry hentry
+    obtain ⟨_, _, _, _, _, _, _, _, hcyc, _⟩ := cellCycle_of_rec hv he (hcells entry hentry)
+    have hW : entry.2.map (edgeVertex el.edges) = W := by
+      rw [forall₂_map_eq (fun e ab hs => edgeVertex_of_signed _ he e ab hs) h5, openPairs_close_fst]
+    have hcyc' : cellCycle el.edges entry.1 entry.2 = if entry.1 < 0 then W.reverse else W := by
+      unfold cellCycle; simp only [hW]
+    simp only at hab
+    rw [hcyc'] at hab
+    -- every cyclic pair of `W` is joined
+    have joinedW : ∀ xy ∈ cyclicPairs W, ∃ e ∈ latticeEdges el,
+        (e.2.1 = xy.1 ∧ e.2.2 = xy.2) ∨ (e.2.1 = xy.2 ∧ e.2.2 = xy.1) := by
+      intro xy hxy
+      rw [cyclicPairs_eq_openPairs] at hxy
+      obtain ⟨e, _, hse⟩ := forall₂_mem_right h5 xy hxy
+      rw [hle]
+      rcases hse with ⟨_, hm⟩ | ⟨_, hm⟩
+      · exact ⟨_, List.mem_map.mpr ⟨_, hm, rfl⟩, Or.inl ⟨rfl, rfl⟩⟩
+      · exact ⟨_, List.mem_map.mpr ⟨_, hm, rfl⟩, Or.inr ⟨rfl, rfl⟩⟩
+    split at hab
+    · have hperm := cyclicPairs_reverse_perm' W
+      have : ab ∈ (cyclicPairs W).map Prod.swap := hperm.mem_iff.mp hab
+      obtain ⟨xy, hxy, rfl⟩ := List.mem_map.mp this
+      obtain ⟨e, he', hj⟩ := joinedW xy hxy
+      exact ⟨e, he', by rcases hj with hj | hj <;> [exact Or.inr hj; exact Or.inl hj]⟩
+    · exact joinedW ab hab
+
+theorem tess_consistent' (verts : List Pt) (regions : List (List Int)) (md2 : Option Rat)
+    (h : GoodRegions verts (removeInfiniteRegions verts md2 regions)) :
+    let el := createLatticeElements verts regions md2
+    (Mesh.ofLists (latticeVertices el) (latticeEdges el) (latticeCells el)).Consistent = true := by
+  intro el
+  exact ofLists_consistent _ _ _ (tess_wf verts regions md2 h)
 
 end Tess
 end Forsys
